@@ -95,12 +95,16 @@ class PipeShape(Shape):
         kind, msg = 'ok', ''
         try:
             with contextlib.redirect_stdout(buf):
-                asm = eng.Assembler(
-                    os.path.join(case.workdir, case.main), os.path.join(case.workdir, 'isa.yaml'), case.binary, outp,
-                    int(val(case.start)), None if case.end is None else int(val(case.end)), val(case.fill),
-                    case.pretty is not None, case.pretty or 'listing', 'stdout', 0,
-                    [os.path.join(case.workdir, d) for d in case.include_dirs], case.concrete_predefined(model))
-                asm.assemble_bytecode()
+                import bespokeasm.__main__ as cli
+                # same entry point as the symbolic run and the command line: the real `compile` command callback
+                cli.compile.callback(
+                    asm_file=os.path.join(case.workdir, case.main), config_file=os.path.join(case.workdir, 'isa.yaml'),
+                    binary=case.binary, output_file=outp, binary_min_address=int(val(case.start)),
+                    binary_max_address=(-1 if case.end is None else int(val(case.end))), binary_fill=val(case.fill),
+                    pretty_print=case.pretty is not None, pretty_print_format=case.pretty or 'listing',
+                    pretty_print_output='stdout', verbose=0,
+                    include_path=tuple(os.path.join(case.workdir, d) for d in case.include_dirs),
+                    macro_symbol=tuple(case.concrete_predefined(model)))
         except SystemExit as e:
             kind, msg = 'exit', str(e.code)
         except Exception as e:  # noqa
